@@ -341,6 +341,26 @@ def check_cfdp(case):
     eq(devs, "clean.trailer", raw[-2:], crc_bytes(raw[:-2]), "trailer vs reference CRC of all preceding octets")
     cls.unpack(raw)
     PduFactory.from_raw(raw)
+    # "every uncorrupted packed packet passes the check" along the sender's history: the configuration object the PDU was built from
+    # is the caller's; the caller re-uses it for its next transaction (other file-size class, no checksum, other numbers) and the PDU
+    # built earlier is packed again: same octets, trailer still the CRC of what precedes it, still accepted
+    from spacepackets.cfdp import defs as _cd
+    from spacepackets.util import ByteFieldGenerator as _G
+
+    conf_obj = M.build_conf(p["conf"])
+    pdu = M.build_pdu(p, conf_obj=conf_obj)
+    first = bytes(pdu.pack())
+    eq(devs, "caller_conf.first_pack", first, want)
+    conf_obj.file_flag = _cd.LargeFileFlag(1 - int(p["conf"]["large"]))
+    conf_obj.crc_flag = _cd.CrcFlag.NO_CRC
+    conf_obj.transaction_seq_num = _G.from_int(p["conf"]["seqw"], (p["conf"]["seq"] + 1) % (1 << (8 * p["conf"]["seqw"])))
+    try:
+        second = bytes(pdu.pack())
+        eq(devs, "caller_conf.pack_after_caller_reused_its_configuration", second, want)
+        eq(devs, "caller_conf.trailer_after_caller_reused_its_configuration", second[-2:], crc_bytes(second[:-2]))
+        cls.unpack(second)
+    except Exception as e:  # noqa: BLE001 - an uncorrupted packed PDU must pack and pass its own decoder
+        true(devs, "caller_conf.uncorrupted_pdu_accepted_after_caller_reused_its_configuration", False, f"{type(e).__name__}: {e}")
     if devs:
         return devs, 1
     n = run_faults(devs, raw, cfdp_excluded_bits(), [(f"{cls.__name__}.unpack", cls.unpack), ("factory", PduFactory.from_raw)], case, None)
